@@ -283,7 +283,8 @@ def expand_crate():
 
 
 def obligation_name(unit, f):
-    kind = "postcondition" if "postcondition" in f["message"] else \
+    kind = "closure_postcondition" if "post-condition of closure" in f["message"] else \
+        "postcondition" if "postcondition" in f["message"] else \
         "precondition" if "precondition" in f["message"] else \
         "assertion" if "assert" in f["message"] else \
         "overflow" if "overflow" in f["message"] or "underflow" in f["message"] else \
